@@ -718,6 +718,116 @@ def fam_static_order(tier, rng):
 FAMILIES.append(fam_static_order)
 
 
+def fam_complete_blocks(tier, rng):
+    """the same nests as exit-blocks, but every block runs to its natural end (a matched CASE, CASE ELSE, no CASE matching and
+    no CASE ELSE, a second CASE, a range; loops ending by their conditions) inside a FUNCTION / SUB whose caller has an operand
+    pending or stands inside a block of its own: a block that leaves something behind shifts what the caller finds"""
+    out = []
+    kinds = ["select", "selectelse", "selectnone", "selectsecond", "selectrange", "selectis", "for", "while", "do", "if", "ifelse"]
+    nests = [(k,) for k in kinds] + [("select", "for"), ("for", "select"), ("select", "select"), ("while", "selectelse"), ("for", "selectnone")]
+    for kind in ("sub", "fun"):
+        for nest in nests:
+            for caller in ("operand", "roperand", "select", "for", "plain"):
+                if kind == "sub" and caller in ("operand", "roperand"):
+                    continue
+                b = B()
+                n = var("N", "I")
+                inner = [b.print(lit("$", "in"), n)]
+
+                def wrap(k, body, lvl):
+                    v = var("K%d" % lvl, "I")
+                    nine = [b.print(lit("$", "nine"))]
+                    if k == "select":
+                        return [b.select(n, [([eqt(lit("I", 2))], body)], [b.print(lit("$", "else"))])]
+                    if k == "selectelse":
+                        return [b.select(n, [([eqt(lit("I", 9))], nine)], body)]
+                    if k == "selectnone":
+                        return [b.select(n, [([eqt(lit("I", 9))], nine)], None)] + body
+                    if k == "selectsecond":
+                        return [b.select(n, [([eqt(lit("I", 9))], nine), ([eqt(lit("I", 1)), eqt(lit("I", 2))], body)], None)]
+                    if k == "selectrange":
+                        return [b.select(n, [([rtest(lit("I", 1), lit("I", 3))], body)], [b.print(lit("$", "else"))])]
+                    if k == "selectis":
+                        return [b.select(n, [([ist(">", lit("I", 5))], nine), ([ist("<", lit("I", 5))], body)], None)]
+                    if k == "for":
+                        return [b.for_(v, lit("I", 1), lit("I", 2), None, body, hasstep=False)]
+                    if k == "while":
+                        return [b.let(v, lit("I", 0)), b.while_(bin_("<", v, lit("I", 2)), [b.let(v, bin_("+", v, lit("I", 1)))] + body)]
+                    if k == "do":
+                        return [b.let(v, lit("I", 0)), b.do("bot", "until", bin_(">=", v, lit("I", 2)), [b.let(v, bin_("+", v, lit("I", 1)))] + body)]
+                    if k == "ifelse":
+                        return [b.if_([(bin_("=", n, lit("I", 7)), [b.print(lit("$", "seven"))])], body)]
+                    return [b.if_([(bin_("=", n, lit("I", 2)), body)])]
+                body = inner
+                for lvl, k in enumerate(reversed(nest)):
+                    body = wrap(k, body, lvl)
+                body = body + [b.print(lit("$", "done"))]
+                if kind == "sub":
+                    subs = [sub("P", [("N", "I")], body)]
+                    call = b.call("P", [lit("I", 2)])
+                else:
+                    subs = [fun("F", "I", [("N", "I")], body + [b.let(var("F", "I"), lit("I", 10))])]
+                    fc = fcall("F", "I", [lit("I", 2)], 0)
+                    e = bin_("+", lit("I", 100), fc) if caller == "operand" else bin_("-", fc, lit("I", 100)) if caller == "roperand" else fc
+                    call = b.let(var("R", "I"), e)
+                    fc["sid"] = call["id"]
+                after = [b.print(lit("$", "r"), var("R", "I"))]
+                i = var("I", "I")
+                if caller == "select":
+                    main = [b.let(var("S", "I"), lit("I", 4)), b.select(var("S", "I"), [([eqt(lit("I", 4))], [call] + after)], [b.print(lit("$", "mainelse"))])]
+                elif caller == "for":
+                    main = [b.for_(i, lit("I", 1), lit("I", 2), None, [call] + after, hasstep=False)]
+                else:
+                    main = [call] + after
+                main.append(b.print(lit("$", "end")))
+                out.append({"fam": "complete-blocks:%s/%s/%s" % (kind, "+".join(nest), caller), "prog": prog(main, subs)})
+    return out
+
+
+FAMILIES.append(fam_complete_blocks)
+
+
+def fam_shared_byref(tier, rng):
+    """a SHARED variable (scalar, array element) of the module passed by reference: the callee's writes to the parameter arrive in
+    the SHARED variable, also when the callee (or a SUB it calls) reads the SHARED name itself before and after"""
+    out = []
+    for t in T5:
+        for shape in ("var", "idx", "par"):
+            for callee in ("sub", "fun", "via"):
+                b = B()
+                if shape == "idx":
+                    g = idx("G", t, [lit("I", 1)])
+                    d = b.dim("G", t, [{"lo": lit("I", 0), "hi": lit("I", 2), "nolo": False}], shared=True)
+                else:
+                    g = var("G", t)
+                    d = b.dim("G", t, shared=True)
+                arg = par(g) if shape == "par" else g
+                x = var("X", t)
+                pbody = [b.print(lit("$", "in"), x, g), b.let(x, v1(t)), b.print(lit("$", "set"), x), b.call("Q", [])]
+                q = [b.print(lit("$", "q"), g)]
+                main = [d, b.let(g, v0(t))]
+                subs = [sub("Q", [], q)]
+                if callee == "sub":
+                    subs.append(sub("P", [("X", t)], pbody))
+                    main.append(b.call("P", [arg]))
+                elif callee == "via":
+                    subs.append(sub("P", [("X", t)], pbody))
+                    subs.append(sub("V", [("Z", t)], [b.call("P", [var("Z", t)]), b.print(lit("$", "v"), var("Z", t))]))
+                    main.append(b.call("V", [arg]))
+                else:
+                    subs.append(fun("F", "I", [("X", t)], pbody + [b.let(var("F", "I"), lit("I", 1))]))
+                    fc = fcall("F", "I", [arg], 0)
+                    st = b.let(var("R", "I"), fc)
+                    fc["sid"] = st["id"]
+                    main.append(st)
+                main += [b.print(lit("$", "after"), g), b.call("Q", [])]
+                out.append({"fam": "shared-byref:%s/%s/%s" % (t, shape, callee), "prog": prog(main, subs)})
+    return out
+
+
+FAMILIES.append(fam_shared_byref)
+
+
 def cases(tier, seed):
     rng = random.Random(seed)
     out = []
